@@ -24,6 +24,22 @@ type RefSchema struct {
 	Package *Package
 	Schema  string
 	To      RootSchema
+
+	// source is the descriptor the ref stands for, when built from reflection.
+	source protoreflect.FullName
+}
+
+// claim records which descriptor the ref was registered for. Nested names are
+// joined with '_', so two descriptors can map to one schema name (a top level
+// Foo_Bar and a Bar nested in Foo): the second one is an error, it must not
+// silently link to the schema of the first.
+func (ref *RefSchema) claim(descriptor protoreflect.Descriptor) error {
+	name := descriptor.FullName()
+	if ref.source != "" && ref.source != name {
+		return fmt.Errorf("schema name %s is used by both %s and %s", ref.FullName(), ref.source, name)
+	}
+	ref.source = name
+	return nil
 }
 
 func (ref *RefSchema) check() error {
